@@ -11,6 +11,9 @@ use std::collections::BTreeMap;
 
 pub struct C04;
 
+/// child names of the small-scope search: collisions after PascalCase (a/A), concatenations (a+b = ab), a keyword
+pub const SMALL_NAMES: &[&str] = &["a", "b", "ab", "A", "type"];
+
 pub const KEYWORDS: &[&str] = &[
     "as", "break", "const", "continue", "crate", "else", "enum", "extern", "false", "fn", "for", "if", "impl", "in", "let", "loop", "match", "mod",
     "move", "mut", "pub", "ref", "return", "self", "Self", "static", "struct", "super", "trait", "true", "type", "unsafe", "use", "where", "while",
@@ -149,8 +152,46 @@ impl Property for C04 {
         st.sample(|| describe_case(&p));
         well_formed(&defs).map_err(|e| Failure::new(e).with_detail(detail()))
     }
+    fn extra(&self, tier: Tier, _seed: u64, st: &mut Stats) -> Result<(), (Failure, Value)> {
+        // small-scope exhaustive part: every document with up to 4 (thorough: 5) elements over colliding and
+        // concatenating child names, both presets
+        let max_nodes = match tier {
+            Tier::Quick => 4,
+            Tier::Thorough => 5,
+        };
+        let docs = super::smallscope::documents_over(max_nodes, SMALL_NAMES);
+        let (evals, nts, fail) = super::smallscope::run_tuples_over(docs, 1, |_docs, bytes| {
+            let root = crate::sut::parse_seq(bytes).map_err(|(i, e)| format!("document #{} rejected: {}", i + 1, e))?;
+            for opts in [crate::sut::Options::quick_xml_de(), crate::sut::Options::serde_xml_rs()] {
+                let src = root.to_serde_struct(&opts);
+                let defs = read_both(&src).map_err(|e| format!("output is not a sequence of well-formed struct items: {}\n{}", e, src))?;
+                well_formed(&defs).map_err(|e| format!("{}\n{}", e, src))?;
+            }
+            Ok(true)
+        });
+        st.evaluations += evals;
+        st.nontrivial_enumerated += nts;
+        st.add("exhaustive.documents_over_colliding_names", evals);
+        if let Some((e, docs)) = fail {
+            return Err((Failure::new(format!("small-scope exhaustive search: {}", e)).with_detail(json!({"documents": docs})), json!({"small_scope_documents": docs})));
+        }
+        Ok(())
+    }
+    fn replay_custom(&self, payload: &Value) -> Result<(), Failure> {
+        let docs: Vec<Vec<u8>> = payload["small_scope_documents"].as_array().map(|a| a.iter().map(|d| d.as_str().unwrap_or("").as_bytes().to_vec()).collect()).unwrap_or_default();
+        let root = crate::sut::parse_seq(&docs).map_err(|(i, e)| Failure::new(format!("document #{} rejected: {}", i + 1, e)))?;
+        for opts in [crate::sut::Options::quick_xml_de(), crate::sut::Options::serde_xml_rs()] {
+            let src = root.to_serde_struct(&opts);
+            let defs = read_both(&src).map_err(|e| Failure::new(format!("output is not a sequence of well-formed struct items: {}\n{}", e, src)))?;
+            well_formed(&defs).map_err(|e| Failure::new(format!("{}\n{}", e, src)))?;
+        }
+        Ok(())
+    }
+    fn exhaustive(&self) -> bool {
+        true
+    }
     fn rule(&self) -> String {
-        "tape-decoded document sequences over adversarial name pools (keywords in any case, case and separator variants, prefixed and multi-colon names, concatenation sets, String/Option/Vec/Serialize..., identifier-map traps such as text/text_content/foo_1/type_attr, non-ASCII, digits; names may clash after prefix removal; one document in 25 a chain up to depth 60), both presets and both sort orders. The output is parsed with syn (and the strict line reader, cross-checked) and checked for: only pub structs with pub named fields, unique legal non-keyword struct names not shadowing String/Option/Vec, unique legal non-keyword field names per struct, field types String or a struct of the same output, every non-first struct used by exactly one field and the first by none. Non-trivial = the pool holds names that collide after normalisation, a concatenation clash, or a keyword/std/trap name, and the output has three or more structs; distinct by hash of documents and options.".into()
+        "small-scope exhaustive: every document with root r and up to 4 (thorough: 5) elements over the child names a, b, ab, A, type (attribute k, optional text), both presets; sampled: tape-decoded document sequences over adversarial name pools (keywords in any case, case and separator variants, prefixed and multi-colon names, concatenation sets, String/Option/Vec/Serialize..., identifier-map traps such as text/text_content/foo_1/type_attr, non-ASCII, digits; names may clash after prefix removal; one document in 25 a chain up to depth 60), both presets and both sort orders. The output is parsed with syn (and the strict line reader, cross-checked) and checked for: only pub structs with pub named fields, unique legal non-keyword struct names not shadowing String/Option/Vec, unique legal non-keyword field names per struct, field types String or a struct of the same output, every non-first struct used by exactly one field and the first by none. Non-trivial = the pool holds names that collide after normalisation, a concatenation clash, or a keyword/std/trap name, and the output has three or more structs; distinct by hash of documents and options.".into()
     }
     fn assumptions(&self) -> Vec<String> {
         vec![
